@@ -63,7 +63,7 @@ func TestC10Endpoints(t *testing.T) {
 		}
 		defer cl.Stop()
 		if !cl.WaitMembership(Deadline()) {
-			c.Fatalf("C10: cluster did not form")
+			Missf(c, "C10: cluster did not form")
 		}
 		ups := map[string]*Up{}
 		anyTok := MintHS(k.HMAC, nil, time.Time{})
@@ -100,7 +100,7 @@ func TestC10Endpoints(t *testing.T) {
 			return true
 		})
 		if !settled {
-			c.Fatalf("C10: endpoints did not propagate")
+			Missf(c, "C10: endpoints did not propagate")
 		}
 		served := func() map[string]int64 {
 			m := map[string]int64{}
@@ -119,6 +119,7 @@ func TestC10Endpoints(t *testing.T) {
 			var routed string
 			var status int
 			var stamp string
+			tenantNamed := false
 			switch how {
 			case "host", "header", "both":
 				target := c10Eps[c.Pick("target", len(c10Eps))]
@@ -139,7 +140,7 @@ func TestC10Endpoints(t *testing.T) {
 					}
 				}
 				// headers a hostile client may add: piko's own inter-node marker, hop-by-hop tricks
-				switch c.Pick("extraHeader", 6) {
+				switch c.Pick("extraHeader", 8) {
 				case 0:
 					req.Header.Set("x-piko-forward", "true")
 					c.Class("client-sends-forward-marker")
@@ -148,6 +149,20 @@ func TestC10Endpoints(t *testing.T) {
 				case 2:
 					req.Header.Set("x-piko-forward", "true")
 					req.Header.Set("Connection", "x-piko-forward, x-piko-endpoint")
+				case 3:
+					// several Connection lines, piko's own header named in a later one
+					req.Header["Connection"] = []string{"keep-alive", "x-piko-endpoint"}
+					c.Class("several-connection-lines")
+				case 4:
+					req.Header["Connection"] = []string{"keep-alive", "X-Verif-Hop", "X-Piko-Endpoint, x-piko-forward, x-piko-authorization"}
+					c.Class("several-connection-lines")
+				}
+				// the proxy port has no tenants: a request that names one is refused whatever its token
+				namesTenant := c.Chance("namesTenant", 1, 6)
+				if namesTenant {
+					req.Header.Set("x-piko-tenant-id", c.OneOf("tenantName", "t0", "default", "e1"))
+					c.Class("tenant-named-on-proxy-port")
+					tenantNamed = true
 				}
 				if c.Bool("xPikoAuth") {
 					req.Header.Set("x-piko-authorization", "Bearer "+tok)
@@ -203,7 +218,7 @@ func TestC10Endpoints(t *testing.T) {
 					c.Class("near-miss-claim")
 				}
 			}
-			ok := permitted(claims, routed)
+			ok := permitted(claims, routed) && !tenantNamed
 			after := served()
 			if ok {
 				if status == 401 {
